@@ -51,6 +51,8 @@ class CPMCModel:
         up, dn = self.one_body(np.asarray(up, dtype=float), np.asarray(dn, dtype=float))
         ov1 = self.ov(up, dn)
         r = (ov1 / ov).real
+        if r < 0:
+            info["one_body_sign_flip"] = True
         w = w * r
         if abs(w - 1e-8) < 1e-14 + 1e-7 * 1e-8:
             info["near"] = True
@@ -105,7 +107,10 @@ class CPMCModel:
                     info["clipped"] = True
                 w = 0.0
             ov = ov3
-        w = w * math.exp(self.dt * e_shift)
+        with np.errstate(all="ignore"):
+            w = float(w * np.exp(self.dt * e_shift))
+        if w != w:  # 0 * inf: the library sets weights that are not a number to zero
+            w = 0.0
         if abs(w - 100.0) <= 1e-7 * 100.0:
             info["near"] = True
         if w > 100.0:
@@ -150,3 +155,50 @@ def gaussian_for_uniform(u):
     if u >= 1.0:
         return 40.0
     return float(math.sqrt(2.0) * erfinv(2.0 * u - 1.0))
+
+
+def node_straddling_walker(model, up, dn, rs, tries=20):
+    """A walker with positive trial overlap whose overlap turns negative under the one-body
+    half step exp(-dt K/2): found by bisection on the segment between a positive-overlap
+    walker and a negative-overlap one (the two zero crossings - before and after the half
+    step - differ slightly).  Returns (up, dn) or None."""
+    def f0(u, d):
+        return model.ov(u, d).real
+
+    def f1(u, d):
+        return model.ov(*model.one_body(u, d)).real
+
+    for _ in range(tries):
+        bu = up + rs.normal(size=up.shape)
+        bd = dn + rs.normal(size=dn.shape)
+        if f0(bu, bd) >= 0:
+            bu[:, 0] = -bu[:, 0]
+            if f0(bu, bd) >= 0:
+                continue
+
+        def at(t):
+            return (1 - t) * up + t * bu, (1 - t) * dn + t * bd
+
+        def root(f):
+            lo, hi = 0.0, 1.0
+            if f(*at(lo)) <= 0 or f(*at(hi)) >= 0:
+                return None
+            for _ in range(200):
+                mid = 0.5 * (lo + hi)
+                if f(*at(mid)) > 0:
+                    lo = mid
+                else:
+                    hi = mid
+            return lo, hi
+
+        r0, r1 = root(f0), root(f1)
+        if r0 is None or r1 is None:
+            continue
+        t0, t1 = r0[0], r1[1]
+        if t1 < t0 and (t0 - t1) > 1e-9:
+            # between the crossings: still positive before the half step, negative after it
+            t = 0.5 * (t0 + t1)
+            u, d = at(t)
+            if f0(u, d) > 0 and f1(u, d) < 0:
+                return u, d
+    return None
